@@ -43,6 +43,31 @@ def product(chk, quick):
     chk.add_tlc(r, "S_ref_is_projection_of_VtParser")
 
 
+def minimize_strip(vh, input_bytes):
+    """shrink a byte string on which some strip API departs from the requirement vector (F3-class hits do not count)"""
+    def failing(cands):
+        wd = vlib.workdir("min-strip")
+        inp = os.path.join(wd, "in.ndjson")
+        vlib.write_lines(inp, [{"i": c} for c in cands])
+        cfgp = mk_cfg("spec/mc/Eval_Strip.cfg", os.path.join(wd, "e.cfg"), {})
+        r = vlib.tlc_run("spec/mc/Eval_Strip.tla", cfgp, "min-strip-eval", workers=1, env={"INPUT": inp}, xss="1g")
+        if not r.ok:
+            raise vlib.ToolError("eval failed")
+        case = os.path.join(wd, "case.ndjson")
+        vlib.write_lines(case, r.lines)
+        out = vlib.run_harness(vh, ["strip-replay", case, 6]).stdout
+        bad = set()
+        for l in out.strip().split("\n"):
+            o = json.loads(l)
+            if "mismatch" in o and o["mismatch"]["class"] != "F3":
+                bad.add(tuple(o["mismatch"]["input"]))
+        return [tuple(c) in bad for c in cands]
+    try:
+        return vlib.ddmin(input_bytes, failing)
+    except vlib.ToolError:
+        return list(input_bytes)
+
+
 def handle_mismatch(chk, m, f3_open):
     cls = m["class"]
     if cls == "F3" and f3_open:
@@ -141,6 +166,12 @@ def traces(chk, vh, shards, streams, target):
             chk.violation("recorded %s trace (seed %d) rejected by Trace_Strip at call %d: in=%s pieces=%s"
                           % (evs[-1]["api"], seed, rej["reject_at"], evs[-1]["in"], evs[-1]["pcs"]),
                           {"kind": "strip-trace", "events": evs, "seed": seed})
+            if sum(1 for v in chk.violations if "minimised" in v["what"]) == 0:
+                flat = [b for e in evs for b in e["in"]]
+                small = minimize_strip(vh, flat) if len(flat) <= 4000 else flat
+                if len(small) < len(flat):
+                    chk.violation("minimised input of that trace: %s (replay shows which API and chunking fail)" % small,
+                                  {"kind": "strip-case", "input": small, "api": evs[-1]["api"], "chunks": [], "class": "minimised", "detail": {"from_len": len(flat)}})
     chk.evaluations += calls
     chk.nontrivial_count += sum(j[2]["streams"] for j in jobs)
     chk.part("B_traces", shards=shards, calls=calls, bytes=sum(j[2]["bytes"] for j in jobs))
